@@ -12,7 +12,7 @@ import (
 // until every backlog between the network and Accept is full (64 + 1 + 64 places) and the event
 // loop is parked handing over one more; then the server is stopped. Stop must still return.
 func genBacklogSpec(seed uint64, r *simnet.Rng) *spec.RunSpec {
-	tr := []string{"tcp", "udp"}[r.Intn(2)]
+	tr := []string{"tcp", "udp", "udp"}[r.Intn(3)]
 	s := &spec.RunSpec{Property: "C15", Scenario: "close", Seed: seed, VirtualCapS: 1500, Profile: "c15-" + tr + "-accept-backlog-full-then-stop"}
 	s.StartOffsetUs = genStartOffset(r)
 	s.Server = spec.Server{Users: genUsers(r, 1), IP: "10.0.0.1", NoAccept: true, RawMux: r.Bool(0.5)}
@@ -26,7 +26,7 @@ func genBacklogSpec(seed uint64, r *simnet.Rng) *spec.RunSpec {
 	if tr == "udp" {
 		c.MTU = 1400
 	}
-	n := r.Pick(60, 128, 131, 140, 170)
+	n := r.Pick(60, 131, 140, 140, 170)
 	cs := &spec.CloseSpec{}
 	for i := 0; i < n; i++ {
 		c.Sessions = append(c.Sessions, spec.Session{ID: i, StartUs: int64(i) * 700, CloseMode: "none"})
@@ -43,10 +43,15 @@ func genBacklogSpec(seed uint64, r *simnet.Rng) *spec.RunSpec {
 
 func genCloseSpec(seed uint64, tier string) *spec.RunSpec {
 	r := simnet.NewRng(seed, "c15")
-	if r.Bool(0.06) {
+	if r.Bool(0.09) {
 		return genBacklogSpec(seed, r)
 	}
+	// the profile is drawn first (from its own stream): some profiles bias the other choices
+	profile := simnet.NewRng(seed, "c15-profile").Pick(0, 0, 1, 2, 3, 4, 5, 5, 6, 6, 7, 7) // 0 plain close, 1 back-pressure, 2 deadlines, 3 stop events, 4 underlay failure, 5 stop/failure under back-pressure, 6 one-way use, 7 stop while the network is silent
 	tr := []string{"tcp", "udp"}[r.Intn(2)]
+	if profile == 6 && r.Bool(0.5) {
+		tr = "tcp" // a reader on TCP is never released by an idle time-out: a lost close shows as a hang
+	}
 	s := &spec.RunSpec{Property: "C15", Scenario: "close", Seed: seed, VirtualCapS: 1500}
 	s.StartOffsetUs = genStartOffset(r)
 	s.Server = spec.Server{Users: genUsers(r, 2), IP: "10.0.0.1", Pattern: genPattern(r, tr == "tcp", false)}
@@ -86,16 +91,15 @@ func genCloseSpec(seed uint64, tier string) *spec.RunSpec {
 	}
 	// a third of the runs in 0-RTT handshake mode, a quarter straight on the multiplexers: there a
 	// client session is still waiting for the open-session response when it is written and closed
-	if r.Bool(0.25) {
+	if r.Bool(0.25) || (profile == 6 && r.Bool(0.4)) {
 		s.Server.RawMux = true
-	} else if r.Bool(0.4) {
+	} else if r.Bool(0.4) || profile == 6 {
 		for i := range s.Clients {
 			s.Clients[i].NoWait = true
 		}
 	}
 	cs := &spec.CloseSpec{HorizonUs: 120000000}
 	idleChoices := []int64{0, 1000, 300000, 2000000, 4900000, 5100000, 7000000, 12000000, 65000000}
-	profile := r.Pick(0, 0, 1, 2, 3, 4, 5, 5, 6, 7, 7) // 0 plain close, 1 back-pressure, 2 deadlines, 3 stop events, 4 underlay failure, 5 stop/failure under back-pressure, 6 one-way use, 7 stop while the network is silent
 	s.Profile = fmt.Sprintf("c15-%s-%s", tr, []string{"close", "backpressure", "deadlines", "stop", "failure", "backpressure-stop", "oneway", "silent-then-stop"}[profile])
 	bpWriterSide := ""
 	for ci, c := range s.Clients {
@@ -106,6 +110,9 @@ func genCloseSpec(seed uint64, tier string) *spec.RunSpec {
 			idle := idleChoices[r.Intn(len(idleChoices))]
 			closeAt := int64(r.Pick(1000, 50000, 500000, 3000000)) + idle
 			closer := []string{"client", "server"}[r.Intn(2)]
+			if profile == 6 && r.Bool(0.5) {
+				closer = "client" // the end that writes and closes without reading
+			}
 			other := map[string]string{"client": "server", "server": "client"}[closer]
 			switch profile {
 			case 1: // the peer application stops reading; the local writer fills every queue and blocks
